@@ -406,6 +406,28 @@ func runC10(rt *rapid.T) {
 				fail("round trip on the reopened connection failed: %v", serr)
 			}
 			logf("reopened, round trip ok")
+			// a refused Open must have NO side effects - in particular it must not cancel a reconnect
+			// that is pending after an involuntary drop
+			close(stop)
+			stop = nil
+			if w.ln != nil {
+				_ = w.ln.Close()
+			}
+			pwg.Wait() // the peer is gone: the link drops
+			if !waitState(w.conn, hsms.NotConnectedState, 3*time.Second) {
+				fail("State()=%v after the peer went away", w.conn.State())
+			}
+			time.Sleep(3 * time.Millisecond)
+			if e := w.conn.Open(context.Background(), hsms.OpenBackground); !errors.Is(e, hsms.ErrAlreadyOpen) {
+				fail("Open while reconnecting returned %v, want ErrAlreadyOpen", e)
+			}
+			stop = make(chan struct{})
+			pwg.Add(1)
+			go c10Peer(w, "select", 0, stop, &pwg)
+			if !waitState(w.conn, hsms.SelectedState, 5*time.Second) {
+				fail("after a refused Open during reconnect the connection never came back (State()=%v)", w.conn.State())
+			}
+			logf("recovered after drop + refused Open")
 			if e := w.conn.Close(); e != nil {
 				fail("Close of the reopened connection: %v", e)
 			}
